@@ -3,6 +3,7 @@ package meshgen
 import (
 	"fmt"
 	"math"
+	"math/big"
 	"runtime"
 	"strings"
 
@@ -45,12 +46,13 @@ type OpDesc struct {
 	Decimal int       `json:"decimal,omitempty"` // weld decimal place
 	Iter    int       `json:"iter,omitempty"`
 	Factor  float64   `json:"factor,omitempty"`
+	Exp     int       `json:"exp,omitempty"` // scale of the input mesh (Desc.Exp): areas scale by 2^-2Exp
 }
 
 var ExactOps = []string{"append", "unweld", "remove_unref", "remove_null", "flip", "to_points", "filter", "crop",
 	"split", "weld", "set_indices", "set_attr", "set_materials", "repeat", "translate", "scale3", "scale2",
 	"rotate", "apply_trs", "center"}
-var FrameOps = []string{"normalize3", "normalize2", "smooth_normals", "flat_normals", "smooth_implicit", "laplacian", "scale_along_normal"}
+var FrameOps = []string{"normalize3", "normalize2", "smooth_normals", "flat_normals", "smooth_implicit", "laplacian", "laplacian_axis", "scale_along_normal"}
 
 func IsFrameOp(op string) bool {
 	for _, f := range FrameOps {
@@ -129,10 +131,11 @@ func Apply(o OpDesc, ins []modeling.Mesh) (outs []modeling.Mesh, class string, m
 		}
 		return one(meshops.RemovedUnreferencedVertices(m)), "ok", ""
 	case "remove_null":
+		minArea := math.Ldexp(float64(o.Min2)/2, -2*o.Exp)
 		if tv {
-			return transform(meshops.RemoveNullFaces3DTransformer{Attribute: o.Attr, MinArea: float64(o.Min2) / 2}, m), "ok", ""
+			return transform(meshops.RemoveNullFaces3DTransformer{Attribute: o.Attr, MinArea: minArea}, m), "ok", ""
 		}
-		return one(meshops.RemoveNullFaces3D(m, o.Attr, float64(o.Min2)/2)), "ok", ""
+		return one(meshops.RemoveNullFaces3D(m, o.Attr, minArea)), "ok", ""
 	case "flip":
 		if tv {
 			return transform(meshops.FlipTriangleWindingTransformer{}, m), "ok", ""
@@ -285,6 +288,8 @@ func Apply(o OpDesc, ins []modeling.Mesh) (outs []modeling.Mesh, class string, m
 			return transform(meshops.LaplacianSmoothTransformer{Attribute: o.Attr, Iterations: o.Iter, SmoothingFactor: o.Factor}, m), "ok", ""
 		}
 		return one(meshops.LaplacianSmooth(m, o.Attr, o.Iter, o.Factor)), "ok", ""
+	case "laplacian_axis":
+		return one(meshops.LaplacianSmoothAlongAxis(m, o.Attr, o.Iter, o.Factor, v3(o.V))), "ok", ""
 	case "scale_along_normal":
 		if tv {
 			return transform(meshops.ScaleAttributeAlongNormalTransformer{AttributeToScale: o.Attr, NormalAttribute: o.Attr2, Amount: float64(o.PT)}, m), "ok", ""
@@ -373,7 +378,8 @@ func (o OpDesc) Coq(n *Names) string {
 	case "remove_unref":
 		return "ORemoveUnref"
 	case "remove_null":
-		return fmt.Sprintf("(ORemoveNull %d (area_keep %s))", a, hx.CoqZ(o.Min2*o.Min2))
+		min4 := new(big.Int).Mul(big.NewInt(o.Min2), big.NewInt(o.Min2)) // may exceed int64 on the needle stream
+		return fmt.Sprintf("(ORemoveNull %d (area_keep %s%%Z))", a, min4.String())
 	case "flip":
 		return "OFlip"
 	case "to_points":
@@ -439,7 +445,7 @@ func (o OpDesc) FrameCoq(n *Names) (term string, targetArity int, targetName str
 		return fmt.Sprintf("(FFlatNormals %d %d)", n.ID("Position"), n.ID("Normal")), 3, "Normal"
 	case "smooth_implicit":
 		return fmt.Sprintf("(FSmoothImplicit %d %d)", n.ID("Position"), n.ID("Normal")), 3, "Normal"
-	case "laplacian":
+	case "laplacian", "laplacian_axis":
 		return fmt.Sprintf("(FLaplacian %d)", n.ID(a)), 3, a
 	case "scale_along_normal":
 		a2 := o.Attr2
@@ -500,7 +506,7 @@ func RandomOp(r *hx.Rng, d Desc, kinds []string) OpDesc {
 			fits = topo == modeling.TriangleTopology
 		case "crop":
 			fits = topo == modeling.PointTopology
-		case "laplacian":
+		case "laplacian", "laplacian_axis":
 			fits = topo != modeling.PointTopology && topo != modeling.QuadTopology
 		}
 		// an operation on an attribute of some arity mostly goes to a mesh that has one
@@ -515,7 +521,7 @@ func RandomOp(r *hx.Rng, d Desc, kinds []string) OpDesc {
 		switch op {
 		case "scale2", "normalize2":
 			fits = fits && hasArity(2)
-		case "translate", "scale3", "rotate", "center", "normalize3", "laplacian", "weld", "remove_null", "crop", "scale_along_normal":
+		case "translate", "scale3", "rotate", "center", "normalize3", "laplacian", "laplacian_axis", "weld", "remove_null", "crop", "scale_along_normal":
 			fits = fits && hasArity(3)
 		case "apply_trs", "repeat", "smooth_normals", "flat_normals", "smooth_implicit":
 			fits = fits && d.Has(3, "Position")
@@ -530,7 +536,7 @@ func RandomOp(r *hx.Rng, d Desc, kinds []string) OpDesc {
 		"filter": {"", "t"}, "crop": {"", "t"}, "translate": {"", "t", "m"}, "scale3": {"", "t", "m"},
 		"scale2": {"", "t"}, "rotate": {"", "t", "m"}, "center": {"", "t"}, "normalize3": {"", "t"},
 		"normalize2": {"", "t"}, "smooth_normals": {"", "t"}, "flat_normals": {"", "t"},
-		"smooth_implicit": {"", "t"}, "laplacian": {"", "t"}, "scale_along_normal": {"", "t"},
+		"smooth_implicit": {"", "t"}, "laplacian": {"", "t"}, "scale_along_normal": {"", "t"}, "laplacian_axis": {""},
 	}
 	if vs, ok := variants[op]; ok {
 		o.Variant = hx.Pick(r, vs)
@@ -634,10 +640,16 @@ func RandomOp(r *hx.Rng, d Desc, kinds []string) OpDesc {
 		o.Attr = pickAttr(r, d, 3, "Position")
 	case "normalize2":
 		o.Attr = pickAttr(r, d, 2, "TexCoord")
-	case "laplacian":
+	case "laplacian", "laplacian_axis":
 		o.Attr = pickAttr(r, d, 3, "Position")
 		o.Iter = r.Range(0, 3)
-		o.Factor = hx.Pick(r, []float64{0.5, 0.1, 1, 0.25})
+		o.Factor = hx.Pick(r, []float64{0.5, 0.1, 1, 0.25, 0.125})
+		if op == "laplacian_axis" {
+			o.V = randVec(r, 3, -3, 3)
+			if o.V[0] == 0 && o.V[1] == 0 && o.V[2] == 0 {
+				o.V[r.Intn(3)] = 1
+			}
+		}
 	case "scale_along_normal":
 		o.Attr = pickAttr(r, d, 3, "Position")
 		o.Attr2 = pickAttr(r, d, 3, "Normal")
